@@ -176,6 +176,29 @@ def main():
                 pred(l, "reduceVertices returned %s: ends / order / an adjacent pair the validator never accepted / unchanged flag" % a)
         except Exception:
             pred(l, "no observation: " + a[:80])
+    # ---- collapseCloseVertices as a whole against PathModel.collapse_close (distinct integer coordinates: exact distances, ties)
+    cc_feed = []
+    for i in range(300 if quick else 12000):
+        n = rng.choice([2, 3, 4, 5, 6, 8, 10, 14]); xs = rng.sample(range(-3 * n, 3 * n), n) if rng.random() < 0.5 else rng.sample(range(0, n + 3), n)
+        dens = rng.choice([0.0, 0.1, 0.3, 0.6, 1.0])
+        pairs = ["%d-%d" % (a, b) for a in range(n) for b in range(a + 1, n) if rng.random() < dens]
+        cc_feed.append("CC %d %d %s | %s" % (rng.choice([0, 0, 1, 3, 10, 50]), rng.choice([0, 0, 1, 2, 5]), " ".join(map(str, xs)), " ".join(pairs)))
+    rcc, oc, ec, sc = vf.sh([drv], input="\n".join(cc_feed) + "\n", timeout=900); c.step("correspond:impl-collapse", drv + " CC ...", sc, rcc == 0)
+    rcd, od, ed, sd = vf.sh([model, "path"], input="\n".join(cc_feed) + "\n", timeout=900); c.step("correspond:model-collapse", model + " path", sd, rcd == 0)
+    ic, mc2 = [l for l in oc.split("\n") if l.startswith("cc ")], [l for l in od.split("\n") if l.startswith("cc ")]
+    stats["collapse_scripts"] = len(cc_feed)
+    for k, l in enumerate(cc_feed):
+        a = ic[k].strip() if k < len(ic) else "?"; b = mc2[k].strip() if k < len(mc2) else "?"
+        if a.startswith("cc 1"): stats["collapse_changed"] += 1
+        if a != b:
+            ndiff += 1
+            if first_diff is None or len(l) < len(first_diff[0]): first_diff = (l, "collapseCloseVertices: implementation '%s' model '%s'" % (a[:160], b[:160]))
+        try:
+            ids = [int(x) for x in a.split("|")[1].split()]; n = len(l.split("|")[0].split()) - 3; okp = set(l.split("|")[1].split())
+            if ids[0] != 0 or ids[-1] != n - 1 or ids != sorted(set(ids)) or any(y != x + 1 and ("%d-%d" % (x, y)) not in okp for x, y in zip(ids, ids[1:])) or (a.startswith("cc 0") and ids != list(range(n))):
+                pred(l, "collapseCloseVertices returned %s: ends / order / an adjacent pair the validator never accepted / unchanged flag" % a)
+        except Exception:
+            pred(l, "no observation: " + a[:80])
     if ledger_feed:
         rc3, o3, e3, s3 = vf.sh([model, "ledger"], input="\n".join(ledger_feed) + "\n", timeout=600); c.step("correspond:model-ledger", model + " ledger", s3, rc3 == 0)
         for j, v in zip(ledger_jobs, o3.split("\n")):
@@ -192,7 +215,7 @@ def main():
         j, msg = first_pred
         c.violation("implementation violates C17: %s on '%s'" % (msg, j), "# C17 replay: bin/check C17 --replay <this file>  (or: build/harness/simplify_driver <the line>)\n%s\n" % j)
     elif first_diff:
-        c.broken.append("correspondence C17 (PathGeometric::interpolate vs PathModel.interp_counts, reduceVertices vs PathModel.reduce_vertices): %s on '%s'" % (first_diff[1], first_diff[0]))
+        c.broken.append("correspondence C17 (PathGeometric::interpolate vs PathModel.interp_counts, reduceVertices / collapseCloseVertices vs PathModel.reduce_vertices / collapse_close): %s on '%s'" % (first_diff[1], first_diff[0]))
     c.finish()
 
 
